@@ -7,16 +7,21 @@ package main
 //   `u` (HAProxyUpdate) and `q` (reload queue run = Instance.Reload) carries at most one fault:
 //     tm  a tcp sni map file          fm  _front_bind_crt.list (first file of WriteFrontendMaps)
 //     cl  the tcp crt-list            mc  haproxy.cfg             sh<k>  haproxy5-backend<k>.cfg
+//     bm  the first backend map (no backend of this mode needs ACLs: never fires here, see world mode)
 //     ad<i>+<j>..  admin socket error on these Sends of the update   ab<i>+..  bad answer instead
 //     rs  reload command fails on the master socket      rr  reload accepted, worker fails
-//   file faults = the target is replaced by a DIRECTORY for the duration of the call (EISDIR; the
-//   harness runs as root, chmod would not stop the write).
+//   file faults: an existing target is made immutable for the duration of the call (chattr +i: EPERM on
+//   write, still readable), a target that does not exist yet is replaced by a DIRECTORY (EISDIR); the
+//   harness runs as root, chmod would not stop the write.
 //   case line: C12 inst <queue 0|1> <n> <shard of name 0>.<shard of name 1>... <op>,<op>,...
 //   impl output: one observation per u/q op, `;` separated (see c12obs).
 //
 // world mode: the world runner (real watchers, converters, tracker, Instance) with a fault script; a
 //   fault-free TWIN pipeline runs the same history first, so that the harness knows which files the
-//   step writes; see c12world below.
+//   step writes; see c12worldRun below.
+//
+// The six finding signatures of the oracle (Drv/C12.lean) are `fixed:` entries of known-findings.txt
+// (repo commits 5b084c3, 17543b6); their replays stay in c12instCorpus / c12worldCorpus.
 
 import (
 	"context"
